@@ -134,6 +134,11 @@ def judge(d):
         out.append(("foreign-free", "%d pointer(s) not obtained from the custom allocator handed to the custom free" % d["foreign"]))
     if d.get("viol"):
         out.append(("api", d.get("violtxt", "")))
+    if d.get("optional") and not str(d.get("s", "")).startswith("train_"):
+        # the trainers degrade gracefully by design (a candidate / a sample whose allocation failed is skipped); every other
+        # operation must report the failure
+        out.append(("not-reported", "an allocation failed inside a call that nevertheless returned success: "
+                    + ";".join(x for x in d.get("ops", "").split(";") if "despite" in x)[:200]))
     return out
 
 
